@@ -9,6 +9,8 @@ import (
 	"fmt"
 	"regexp"
 	"strings"
+	"unicode"
+	"unicode/utf8"
 
 	"github.com/yuin/goldmark"
 	"github.com/yuin/goldmark/ast"
@@ -146,6 +148,63 @@ var stripBrackets = strings.NewReplacer(rawStart, "", rawEnd, "")
 type tol struct {
 	prePadding  bool // C20-pre-padding: whitespace-only text directly inside <pre> next to <code>
 	inlineSpace bool // C20-inline-newline: words compared with all whitespace removed
+	codeNL      bool // C20-code-span-line-ending: a line ending inside a code span counts as a space
+	trimNBSP    bool // C20-content-trim-nbsp: documents whose reference has an element starting/ending with a non-ASCII space are not compared
+}
+
+// htmlFields splits at HTML white space only (space, tab, LF, FF, CR). U+00A0 and the other
+// Unicode spaces are characters of the text: they do not collapse and are compared.
+func htmlFields(s string) []string {
+	return strings.FieldsFunc(s, func(r rune) bool {
+		return r == ' ' || r == '\t' || r == '\n' || r == '\f' || r == '\r'
+	})
+}
+
+// trimTags are the elements whose content the default templates bind with v-html.
+var trimTags = map[string]bool{"p": true, "h1": true, "h2": true, "h3": true, "h4": true, "h5": true, "h6": true,
+	"em": true, "strong": true, "a": true, "del": true, "li": true, "th": true, "td": true, "blockquote": true}
+
+// unicodeSpaceEdge reports whether some element bound with v-html starts or ends (HTML white space
+// aside) with a Unicode space that is not HTML white space, e.g. U+00A0 from &nbsp;.
+func unicodeSpaceEdge(nodes []*html.Node) bool {
+	found := false
+	isUS := func(r rune) bool {
+		return unicode.IsSpace(r) && !(r == ' ' || r == '\t' || r == '\n' || r == '\f' || r == '\r')
+	}
+	var walk func(n *html.Node)
+	walk = func(n *html.Node) {
+		if n.Type == html.ElementNode && trimTags[n.Data] {
+			// the text of the element, descendants included (its last text may sit in an unclosed
+			// raw element such as <q>)
+			var sb strings.Builder
+			var text func(*html.Node)
+			text = func(x *html.Node) {
+				if x.Type == html.TextNode {
+					sb.WriteString(x.Data)
+				}
+				for c := x.FirstChild; c != nil; c = c.NextSibling {
+					text(c)
+				}
+			}
+			text(n)
+			t := strings.Trim(sb.String(), " \t\n\f\r")
+			if t != "" {
+				if r, _ := utf8.DecodeRuneInString(t); isUS(r) {
+					found = true
+				}
+				if r, _ := utf8.DecodeLastRuneInString(t); isUS(r) {
+					found = true
+				}
+			}
+		}
+		for c := n.FirstChild; c != nil; c = c.NextSibling {
+			walk(c)
+		}
+	}
+	for _, n := range nodes {
+		walk(n)
+	}
+	return found
 }
 
 var exactText = map[string]bool{"pre": true, "textarea": true, "script": true, "style": true}
@@ -191,7 +250,7 @@ func normAttrs(tag string, a map[string]string) map[string]string {
 		}
 	case "img":
 		// the description is text: white space runs collapsed like other text
-		a["alt"] = strings.Join(strings.Fields(a["alt"]), " ")
+		a["alt"] = strings.Join(htmlFields(a["alt"]), " ")
 	}
 	if tag == "a" || tag == "img" {
 		if v, ok := a["title"]; ok && v == "" {
@@ -246,9 +305,14 @@ func norm(nodes []*html.Node, mode int, t tol) []*hx.N {
 			// spelling the statement does not fix.
 			s = html.UnescapeString(s)
 		case mCollapse:
-			s = strings.Join(strings.Fields(s), " ")
+			s = strings.Join(htmlFields(s), " ")
 		case mCode:
-			s = codeNL.ReplaceAllString(s, " ")
+			if t.codeNL {
+				s = codeNL.ReplaceAllString(s, " ")
+			} else {
+				// exact, apart from goldmark's CR LF artefact (see codeNL): "\n " is the one space
+				s = strings.ReplaceAll(s, "\n ", " ")
+			}
 		}
 		if s == "" {
 			return
@@ -343,7 +407,7 @@ func words(nodes []*html.Node, strip bool) string {
 	for _, n := range nodes {
 		walk(n)
 	}
-	f := strings.Fields(sb.String())
+	f := htmlFields(sb.String())
 	if strip {
 		return strings.Join(f, "")
 	}
@@ -365,17 +429,25 @@ func compare(ref, got string, t tol) (diff string, tolerated []string) {
 }
 
 func compareNodes(rn, gn []*html.Node, t tol) (string, []string) {
-	strictR, strictG := norm(rn, mCollapse, tol{}), norm(gn, mCollapse, tol{})
+	if t.trimNBSP && unicodeSpaceEdge(rn) {
+		return "", []string{fTrimNBSP} // region of the open finding, recognised on the reference side
+	}
 	var tolerated []string
-	if d := hx.Diff(strictR, strictG, hx.Options{}); d != "" {
-		if !t.prePadding {
+	diff := func(x tol) string {
+		return hx.Diff(norm(rn, mCollapse, x), norm(gn, mCollapse, x), hx.Options{})
+	}
+	if d := diff(tol{}); d != "" {
+		// try the structural tolerances of open findings one by one, then together
+		switch {
+		case t.prePadding && diff(tol{prePadding: true}) == "":
+			tolerated = append(tolerated, fPrePadding)
+		case t.codeNL && diff(tol{codeNL: true}) == "":
+			tolerated = append(tolerated, fCodeNL)
+		case t.prePadding && t.codeNL && diff(tol{prePadding: true, codeNL: true}) == "":
+			tolerated = append(tolerated, fPrePadding, fCodeNL)
+		default:
 			return "structure (reference vs vuego): " + d, nil
 		}
-		r2, g2 := norm(rn, mCollapse, t), norm(gn, mCollapse, t)
-		if d2 := hx.Diff(r2, g2, hx.Options{}); d2 != "" {
-			return "structure (reference vs vuego): " + d2, nil
-		}
-		tolerated = append(tolerated, fPrePadding)
 	}
 	wr, wg := words(rn, false), words(gn, false)
 	if wr != wg {
@@ -515,6 +587,10 @@ func analyse(src []byte) facts {
 			if len(v.Language(src)) > 0 {
 				set("code-fenced-info")
 			}
+			if string(v.Language(src)) == "false" {
+				set("string-false-in-bound-attribute")
+				region(fFalse)
+			}
 			if v.Info != nil {
 				textual(v.Info.Segment.Value(src), "attr")
 			}
@@ -623,6 +699,10 @@ func analyse(src []byte) facts {
 			}
 			textual(v.Destination, "attr")
 			textual(v.Title, "attr")
+			if string(v.Title) == "false" {
+				set("string-false-in-bound-attribute")
+				region(fFalse)
+			}
 			if len(v.Destination) == 0 {
 				set("empty-destination")
 				region(fEmptyDest)
@@ -639,6 +719,10 @@ func analyse(src []byte) facts {
 			textual(v.Destination, "attr")
 			textual(v.Title, "attr")
 			textual(plain(v), "attr")
+			if string(v.Title) == "false" || strings.TrimSpace(string(plain(v))) == "false" {
+				set("string-false-in-bound-attribute")
+				region(fFalse)
+			}
 			_ = ast.Walk(v, func(c ast.Node, entering bool) (ast.WalkStatus, error) {
 				if cs, ok := c.(*ast.CodeSpan); ok && entering {
 					if b := plain(cs); entityRe.Match(b) || escapeRe.Match(b) {
